@@ -67,7 +67,7 @@ theorem firstFactor_spec {M size : ℕ} {init} (hi : InitOk M size init) (hM : 0
     (then `prime * quotient` does not wrap): with `quot = max(q, ⌊(L+6)/q⌋ + 1)` and `u0` the first factor `≥ quot`
     coprime to `M`, the prime is dropped iff `q·u0 > stop`, and otherwise the stored `(multipleIndex, wheelIndex)` is the
     wheel state of the pending multiple `q·u0` relative to the segment. -/
-theorem wheelAdd_spec (w : WheelCfg) (tab) (ht : TabOk w.modulo w.size tab) (hi : InitOk w.modulo w.size w.init)
+theorem wheelAdd_spec (w : WheelCfg) (K : ℕ) (tab) (ht : TabOk w.modulo w.size K tab) (hi : InitOk w.modulo w.size w.init)
     (hM : 30 ∣ w.modulo) (hM0 : 0 < w.modulo)
     (stop q L : ℕ) (hq7 : 7 ≤ q) (hq32 : q < 2 ^ 32) (hq : Nat.gcd q 30 = 1) (hL : 30 ∣ L) (hnw : L + 6 + q < 2 ^ 64)
     (hstop : stop < 2 ^ 64) :
